@@ -763,10 +763,35 @@ def check_state_writers(ctx: Ctx):
     classes.append(prog.cls("panoptica_aggregator:Panoptica_Aggregator"))
     n = 0
     agg_cache = False
+    def _scratch_of(m):
+        """attributes the method binds to a fresh empty value (at its top level) before it reads them: per-call
+        scratch state - whatever an earlier call left there is gone before it could matter"""
+        scratch, seen_read = set(), set()
+        for st in m.node.body:
+            if isinstance(st, (ast.Assign, ast.AnnAssign)) and getattr(st, "value", None) is not None:
+                v_ = st.value
+                fresh = (isinstance(v_, (ast.Dict, ast.List, ast.Set, ast.Tuple)) and not (getattr(v_, "keys", None) or getattr(v_, "elts", None))) or (isinstance(v_, ast.Constant) and v_.value in (None, 0, False, "")) or (isinstance(v_, ast.Call) and not v_.args and not v_.keywords and dotted(v_.func) in ("dict", "list", "set", "defaultdict", "collections.defaultdict", "OrderedDict"))
+                tg_ = st.targets if isinstance(st, ast.Assign) else [st.target]
+                for t_ in tg_:
+                    if fresh and isinstance(t_, ast.Attribute) and isinstance(t_.value, ast.Name) and t_.value.id == m.self_name and t_.attr not in seen_read:
+                        scratch.add(t_.attr)
+            for x_ in ast.walk(st):
+                if isinstance(x_, ast.Attribute) and isinstance(x_.value, ast.Name) and x_.value.id == m.self_name and isinstance(x_.ctx, ast.Load):
+                    seen_read.add(x_.attr)
+        return scratch
+
     for c in sorted(set(classes), key=lambda c: c.qual):
+        # scratch attributes of the class: reset first by one method (the owner); its private helpers work on them too
+        class_scratch = {}
+        for m0 in c.methods.values():
+            if m0.name != "__init__" and m0.self_name:
+                helpers = {n.func.attr for n in ast.walk(m0.node) if isinstance(n, ast.Call) and isinstance(n.func, ast.Attribute) and isinstance(n.func.value, ast.Name) and n.func.value.id == m0.self_name and n.func.attr.startswith("_")}
+                for a_ in _scratch_of(m0):
+                    class_scratch.setdefault(a_, set()).update({m0.name} | helpers)
         for m in c.methods.values():
             if m.name == "__init__" or not m.self_name:
                 continue
+            scratch = {a_ for a_, users in class_scratch.items() if m.name in users}
             for node in walk_no_nested(m.node):
                 tgts = node.targets if isinstance(node, ast.Assign) else [node.target] if isinstance(node, (ast.AugAssign, ast.AnnAssign)) else []
                 hit = None
@@ -776,8 +801,13 @@ def check_state_writers(ctx: Ctx):
                             hit = x
                     if hit is None and isinstance(t, ast.Attribute) and _rooted_at_self(t, m.self_name):
                         hit = t  # self.<settings>.<field> = ...: state of an object this one owns
+                    if hit is None and isinstance(t, ast.Subscript) and isinstance(t.value, ast.Attribute) and isinstance(t.value.value, ast.Name) and t.value.value.id == m.self_name:
+                        hit = t.value  # self.<table>[key] = ...: an entry of a table the object keeps
                 if isinstance(node, ast.Call) and isinstance(node.func, ast.Attribute) and node.func.attr in ("append", "extend", "update", "clear", "pop", "insert", "remove", "setdefault") and isinstance(node.func.value, ast.Attribute) and isinstance(node.func.value.value, ast.Name) and node.func.value.value.id == m.self_name:
                     hit = node.func.value
+                if hit is not None and (hit.attr if isinstance(hit, ast.Attribute) and isinstance(hit.value, ast.Name) else None) in scratch:
+                    n += 1
+                    continue
                 if hit is not None:
                     n += 1
                     ok = m.qual in SETTER_TABLE or is_pure_setter(m)
